@@ -21,6 +21,19 @@ impl dust_dds::dds_async::data_reader_listener::DataReaderListener<KeyedData> fo
     }
 }
 
+/// writer listener recording (total_count, total_count_change) of every offered-deadline-missed notification
+struct OfferedListener(Arc<Mutex<Vec<(i32, i32)>>>);
+impl dust_dds::dds_async::data_writer_listener::DataWriterListener<KeyedData> for OfferedListener {
+    fn on_offered_deadline_missed(
+        &mut self,
+        _the_writer: DataWriterAsync<KeyedData>,
+        status: dust_dds::infrastructure::status::OfferedDeadlineMissedStatus,
+    ) -> impl std::future::Future<Output = ()> + Send {
+        self.0.lock().unwrap().push((status.total_count, status.total_count_change));
+        core::future::ready(())
+    }
+}
+
 /// C31 oracle applied to every execution of every timing scenario: the DDS worker never asks for a sleep longer
 /// than the poke period.
 pub fn worker_sleep_oracle(out: &RunOutcome, v: &mut Vec<(String, String)>) {
@@ -359,6 +372,8 @@ struct DeadParams {
     /// per instance: write instants (ms after start)
     writes: Vec<(u8, i64)>,
     observe_ms: i64,
+    /// the writer has its own OfferedDeadlineMissed listener: every increase must be signalled through it, once
+    w_listener: bool,
 }
 
 /// expected number of missed periods of one instance at time t (ms): for each gap between consecutive samples
@@ -392,7 +407,7 @@ async fn deadline(ctx: Ctx, p: Rc<DeadParams>) {
             }
             writes.push((*id, t));
         }
-        Rc::new(DeadParams { name: p.name.clone(), period_ms: p.period_ms, writes, observe_ms: t + 260 })
+        Rc::new(DeadParams { name: p.name.clone(), period_ms: p.period_ms, writes, observe_ms: t + 260, w_listener: p.w_listener })
     } else {
         p
     };
@@ -404,7 +419,12 @@ async fn deadline(ctx: Ctx, p: Rc<DeadParams>) {
     wq.deadline = dl.clone();
     let mut rq = reliable_r(HistoryQosPolicyKind::KeepAll);
     rq.deadline = dl;
-    let w = n1.publisher.create_datawriter::<KeyedData>(&n1.topic, QosKind::Specific(wq), NO_LISTENER, NO_STATUS).await.expect("writer");
+    let offered = Arc::new(Mutex::new(Vec::<(i32, i32)>::new()));
+    let w = if p.w_listener {
+        n1.publisher.create_datawriter::<KeyedData>(&n1.topic, QosKind::Specific(wq), Some(OfferedListener(offered.clone())), &[StatusKind::OfferedDeadlineMissed]).await.expect("writer")
+    } else {
+        n1.publisher.create_datawriter::<KeyedData>(&n1.topic, QosKind::Specific(wq), NO_LISTENER, NO_STATUS).await.expect("writer")
+    };
     let notified = Arc::new(Mutex::new(Vec::<i32>::new()));
     let r = n2
         .subscriber
@@ -487,6 +507,25 @@ async fn deadline(ctx: Ctx, p: Rc<DeadParams>) {
             *last = st_total;
         }
     }
+    if p.w_listener {
+        // the listener task may lag behind the status by a hand-over: let it drain, then every increase of the count
+        // must have been signalled exactly once (contiguous totals, each with change 1 - one call per missed period and
+        // instance - or coalesced: change = distance to the previous total)
+        ctx.sleep_ms(5).await;
+        let total = w.get_offered_deadline_missed_status().await.expect("offered status").total_count;
+        let n = offered.lock().unwrap().clone();
+        let mut prev = 0;
+        for (t, c) in &n {
+            if *t <= prev || *c != *t - prev {
+                ctx.violation("writer/notification-sequence", format!("writer listener notifications (total_count, total_count_change) = {n:?}: each increase must be signalled exactly once"));
+                return;
+            }
+            prev = *t;
+        }
+        if prev != total {
+            ctx.violation("writer/increase-not-signalled", format!("offered-deadline-missed total_count = {total} but the writer's listener was told about {prev} ({n:?})"));
+        }
+    }
 }
 
 pub fn c30(args: &Args) -> Vec<Scenario> {
@@ -509,10 +548,31 @@ pub fn c30(args: &Args) -> Vec<Scenario> {
     if args.thorough() {
         patterns.push(("gaps,1inst,4writes".into(), vec![(1, -1), (1, -1), (1, -1), (1, -1)]));
     }
+    // every assignment of two instances to four writes (first write on instance 1), gaps chosen by the explorer
+    for m in 0..8u8 {
+        let ids: Vec<u8> = (0..4).map(|k| if k == 0 { 1 } else { 1 + ((m >> (k - 1)) & 1) }).collect();
+        if ids == [1, 1, 1, 1] || ids == [1, 2, 1, 2] {
+            continue; // listed above
+        }
+        if !args.thorough() && m % 2 == 1 {
+            continue;
+        }
+        patterns.push((format!("gaps,ids={}", ids.iter().map(|i| i.to_string()).collect::<String>()), ids.iter().map(|i| (*i, -1)).collect()));
+    }
+    if args.thorough() {
+        patterns.push(("gaps,1inst,5writes".into(), vec![(1, -1); 5]));
+        patterns.push(("gaps,3inst,4writes".into(), vec![(1, -1), (2, -1), (3, -1), (1, -1)]));
+    }
     for (tag, writes) in patterns {
-        let p = Rc::new(DeadParams { name: format!("C30.deadline[{tag}]"), period_ms: period, writes, observe_ms: 450 });
-        let name = p.name.clone();
-        v.push(Scenario::new(name, 99, move |ctx| deadline(ctx, p.clone())).cfg(|c| c.horizon_ms = 30_000).post(worker_sleep_oracle));
+        for w_listener in [false, true] {
+            // the listener variant of the enumerated-gap patterns is part of the thorough tier
+            if w_listener && tag.starts_with("gaps") && !args.thorough() && tag != "gaps,1inst,3writes" {
+                continue;
+            }
+            let p = Rc::new(DeadParams { name: format!("C30.deadline[{tag}{}]", if w_listener { ",writer-listener" } else { "" }), period_ms: period, writes: writes.clone(), observe_ms: 450, w_listener });
+            let name = p.name.clone();
+            v.push(Scenario::new(name, 99, move |ctx| deadline(ctx, p.clone())).cfg(|c| c.horizon_ms = 30_000).post(worker_sleep_oracle));
+        }
     }
     v
 }
